@@ -156,8 +156,10 @@ func OracleC07(r *SeqRun) []explore.Violation {
 			}
 			add("restored-terms-differ"+sfx, fmt.Sprintf("hold db%d key%x id%x restored with depth %d Count %d Rcount %d, it had depth %d Count %d Rcount %d", hk.db, hk.key[15], hk.id[15], a.Depth, a.Count, a.Rcount, h.Depth, h.Count, h.Rcount))
 		}
-		if h.ExpriedFlag&fUnlim == 0 {
-			tol := unitSeconds(h.ExpriedFlag) + 1
+		// the deadline a hold really has decides whether it is unlimited: an update carrying (unlimited flag, Expried
+		// 0xffff) leaves the flag on the hold and the deadline where it was (C06 finding update-to-unlimited-0xffff)
+		if h.ExpriedFlag&fUnlim == 0 || h.ExpriedIn < 1<<39 {
+			tol := unitSeconds(h.ExpriedFlag&^fUnlim) + 1
 			if a.ExpriedIn > h.ExpriedIn+tol {
 				add("deadline-renewed", fmt.Sprintf("hold db%d key%x id%x had %d s left before the stop and %d s after the restart (tolerance %d s): the outage renewed it", hk.db, hk.key[15], hk.id[15], h.ExpriedIn, a.ExpriedIn, tol))
 			}
@@ -300,12 +302,14 @@ func c07Specs(quick bool) []*SeqSpec {
 		tick(1 * sec), tick(5 * sec),
 	}})
 	specs = append(specs, &SeqSpec{Name: "restart-flag-combinations", Cfg: rcfg, Depth: d, Restart: true, MaxStates: 300000, Alphabet: []SeqOp{
-		op(0, withData(L(0, 11, 2, 0, 120, 1, 0), v1)),                                   // default persistence delay
-		op(1, L(0, 11, 1, 0, 120, 1, 0)),                                                 // young co-holder
-		op(1, withData(hapi.Cmd{Type: 2, Key: 11, Id: 1}, v2)),                           // ... whose unlock writes the value
-		op(1, withData(withEF(hapi.Cmd{Type: 1, Key: 11, Id: 3, Count: 1}, fMilli), v2)), // zero-expiry value operation with the millisecond flag
-		op(0, withEF(L(0, 12, 1, 0, 1, 0, 0), fUnlim|fMilli|efZeroAof)),                  // unlimited + millisecond flags
-		op(0, withEF(L(0, 13, 1, 0, 60000, 0, 0), fMilli)),                               // millisecond hold persisted after the default delay
+		op(0, withData(L(0, 11, 2, 0, 120, 1, 0), v1)),                                                       // default persistence delay
+		op(1, L(0, 11, 1, 0, 120, 1, 0)),                                                                     // young co-holder
+		op(1, withData(hapi.Cmd{Type: 2, Key: 11, Id: 1}, v2)),                                               // ... whose unlock writes the value
+		op(1, withData(withEF(hapi.Cmd{Type: 1, Key: 11, Id: 3, Count: 1}, fMilli), v2)),                     // zero-expiry value operation with the millisecond flag
+		op(0, withEF(L(0, 12, 1, 0, 1, 0, 0), fUnlim|fMilli|efZeroAof)),                                      // unlimited + millisecond flags
+		op(0, withEF(L(0, 13, 1, 0, 60000, 0, 0), fMilli)),                                                   // millisecond hold persisted after the default delay
+		op(0, L(0, 17, 1, 0, 30, 0, 0)),                                                                      // default delay ...
+		op(0, hapi.Cmd{Type: 1, Key: 17, Id: 1, Flag: 0x02, Expried: 0xffff, ExpriedFlag: fUnlim, Count: 1}), // ... updated with "keep the deadline" before its first record is written
 		tick(1 * sec), tick(4 * sec),
 	}})
 	// a value that outlives the hold that wrote it: the next holder comes out of the wait queue (or joins a counting
